@@ -7,9 +7,12 @@ from common import *
 
 CLAUSES = {
     "C02": ("R1", "R2", "R3", "R4", "R5a", "R5b", "R5c", "R7", "P0"),
-    "C01": ("R7", "P0"),
+    "C01": ("R7", "R8", "P0"),
     "C05": ("D1", "D2", "D3", "B1", "B2", "R4"),
 }
+
+# bytes per model unit when a configuration's behaviours are replayed on the real code
+SCALE = {"L4Router_MC_c01.cfg": 4}
 
 # (cfg file, tier) : exhaustive model configurations; every terminal behaviour is replayed
 MC_CFGS = {
@@ -25,7 +28,7 @@ def signature_of(trace, clauses):
         for r in lst:
             for h in r["hs"]:
                 kinds.add(h["k"])
-    return "router:" + "+".join(sorted(c.split()[0] for c in clauses)) + ":" + "+".join(sorted(kinds & {"wrap", "sub", "eat", "term"}))
+    return "router:" + "+".join(sorted(c.split()[0] for c in clauses)) + ":" + "+".join(sorted(kinds & {"wrap", "sub", "eat", "term", "pp", "thr", "tee", "echo", "tls"}))
 
 
 def run(res, pid, tier, want_random=True, cfgs=None):
@@ -51,7 +54,7 @@ def run(res, pid, tier, want_random=True, cfgs=None):
             cov["transitions"] += r["generated"]
             diff = os.path.join(tmp, cfg + ".diff.ndjson")
             summ = os.path.join(tmp, cfg + ".sum.json")
-            run_driver(vdrive, ["router-replay", "-in", beh, "-out", diff, "-summary", summ,
+            run_driver(vdrive, ["router-replay", "-in", beh, "-out", diff, "-summary", summ, "-scale", str(SCALE.get(cfg, 1024)),
                                 "-reps", "2" if tier == "thorough" else "1"], timeout=3000)
             s = json.load(open(summ))
             if s["replayed"] < r["beh"] or r["beh"] == 0:
